@@ -1,6 +1,7 @@
 import Proofs.WrapMain
 import Proofs.WrapBlock2
 import Proofs.WrapGeom
+import Proofs.WrapSect6
 /-!
 C07 — side-by-side view: correct panels, fixed geometry, lossless wrapping.
 
@@ -28,7 +29,7 @@ theorem wrap_lossless (cfg : Cfg) (line : List Sec) (lw fill : Nat) (hint : Opti
     (hz : NlZero line) (h : wrapFull cfg line lw fill hint = .ok o) :
     ∃ tail, explode (unwrapOut o) ++ tail = explode line ∧ explodeWidth tail = 0 ∧
       (tail ≠ [] → o.rows.length = o.nSym) := by
-  obtain ⟨st, stop, hl, hr, _, hd, hshape⟩ := wrapFull_spec (fx := currentFixes) hz h
+  obtain ⟨st, stop, hl, hr, _, _, hd, hshape⟩ := wrapFull_spec (fx := currentFixes) hz h
   have htext := hl.text
   cases hshape with
   | plain h0 hs =>
@@ -45,8 +46,10 @@ theorem wrap_lossless (cfg : Cfg) (line : List Sec) (lw fill : Nat) (hint : Opti
     rw [← htext, hs, hres]
     simp [unwrapOut, stripResult, setLastText_dropLast]
   | limit hs =>
-    have hlim := (step_done_lineLimit hd).2
-    obtain ⟨hc, _⟩ := hl.fresh hlim
+    have hc : st.curr = [] := by
+      rcases (step_done_lineLimit hd).2 with hlim | ⟨_, _, _, _, _, hst⟩
+      · exact (hl.fresh hlim).1
+      · exact hst.2.2.1
     refine ⟨[], ?_, rfl, fun h => absurd rfl h⟩
     rw [← htext, hc]
     simp [unwrapOut, stripResult]
@@ -61,12 +64,11 @@ the symbol style holding the left wrap symbol (or the right wrap symbol on the f
 the second row is right-aligned): a continued line is visibly marked. -/
 theorem wrap_symbols_present (cfg : Cfg) (line : List Sec) (lw fill : Nat) (hint : Option Nat) (o : Out)
     (hz : NlZero line) (hs1 : cfg.leftSym.w ≤ 1)
-    (hfit : currentFixes.forceProgress = true → Fits cfg lw line)
     (h : wrapFull cfg line lw fill hint = .ok o) :
     ∀ r ∈ o.rows.take o.nSym, ∃ init s, r = init ++ [(symStyleOf fill hint, [s])] ∧
       (s = cfg.leftSym ∨ s = cfg.rightSym) := by
-  obtain ⟨st, stop, hl, hr, hw, hd, hshape⟩ := wrapFull_spec (fx := currentFixes) hz h
-  have hrows := (hw hs1 hfit).rows
+  obtain ⟨st, stop, hl, hr, hw, hfs, hd, hshape⟩ := wrapFull_spec (fx := currentFixes) hz h
+  have hrows := (hw hs1).rows
   cases hshape with
   | plain h0 hs =>
     intro r hr; simp at hr
@@ -89,21 +91,20 @@ theorem wrap_symbols_present (cfg : Cfg) (line : List Sec) (lw fill : Nat) (hint
 /-! ## Row widths -/
 
 /-- **wrap_row_width.** With wrap symbols of display width ≤ 1 (delta requires width 1):
-every row that ends in a wrap symbol fits the line width (once the progress repair is in the
-source: provided every cluster leaves room for the wrap symbol — a wider cluster is then
-placed on a row of its own, which is cut later); when the loop ended because the
-input was used up, *every* row fits; only when the line limit stopped the wrapping can the
-last row (the unwrapped rest, cut later by `truncate_str`) be wider — and then the number of
-rows is exactly the limit. -/
+every row that ends in a wrap symbol fits the line width; when the loop ended because the
+input was used up, *every* row fits; only when wrapping was stopped — by the line limit, or
+(repaired code, no limit) because a cluster cannot stand next to the wrap symbol at all — can
+the last row (the unwrapped rest, cut later by `truncate_str`) be wider; and it is the row
+right after the wrapped ones. -/
 theorem wrap_row_width (cfg : Cfg) (line : List Sec) (lw fill : Nat) (hint : Option Nat) (o : Out)
     (hz : NlZero line) (hs1 : cfg.leftSym.w ≤ 1) (hs2 : cfg.rightSym.w ≤ cfg.leftSym.w)
-    (hfit : currentFixes.forceProgress = true → Fits cfg lw line)
     (h : wrapFull cfg line lw fill hint = .ok o) :
     (∀ r ∈ o.rows.take o.nSym, rowWidth r ≤ lw) ∧
     (o.stop = .stackEmpty → ∀ r ∈ o.rows, rowWidth r ≤ lw) ∧
-    (o.stop = .lineLimit → o.rows.length = effMax cfg lw ∧ o.nSym + 1 = o.rows.length) := by
-  obtain ⟨st, stop, hl, hr, hw, hd, hshape⟩ := wrapFull_spec (fx := currentFixes) hz h
-  have hW := hw hs1 hfit
+    (o.stop = .lineLimit → o.nSym + 1 = o.rows.length ∧
+      (0 < effMax cfg lw → o.rows.length = effMax cfg lw)) := by
+  obtain ⟨st, stop, hl, hr, hw, hfs, hd, hshape⟩ := wrapFull_spec (fx := currentFixes) hz h
+  have hW := hw hs1
   have hrows := hW.rows
   cases hshape with
   | plain h0 hs =>
@@ -136,39 +137,67 @@ theorem wrap_row_width (cfg : Cfg) (line : List Sec) (lw fill : Nat) (hint : Opt
         simp only [rowWidth, gsWidth, hl.len]
         omega
   | limit hs =>
-    have hlim := (step_done_lineLimit hd).2
-    have hpos : 0 < effMax cfg lw := by
-      unfold limitReached at hlim; simp at hlim; exact hlim.1
-    have hcnt := hl.count hpos
     refine ⟨?_, (fun h => by cases h), ?_⟩
     · intro r hr; simp at hr; exact (hrows r hr).2
     · intro _
-      unfold limitReached at hlim
-      simp at hlim ⊢
-      omega
+      refine ⟨by simp, fun hpos => ?_⟩
+      rcases (step_done_lineLimit hd).2 with hlim | ⟨_, _, _, _, _, hst⟩
+      · have hcnt := hl.count hpos
+        unfold limitReached at hlim
+        simp at hlim ⊢
+        omega
+      · have := hst.2.1
+        omega
 
 example : defaultCfg.leftSym.w ≤ 1 ∧ defaultCfg.rightSym.w ≤ defaultCfg.leftSym.w := by decide
 
 /-- **wrap_unlimited_not_cut.** Without a line limit (`--wrap-max-lines unlimited`, line width
-at least 2) the loop can only stop because the whole line has been placed. -/
+at least 2) the loop can only stop because the whole line has been placed — on the repaired
+code: provided every cluster leaves room for the wrap symbol. -/
 theorem wrap_unlimited_not_cut (cfg : Cfg) (line : List Sec) (lw fill : Nat) (hint : Option Nat) (o : Out)
-    (hz : NlZero line) (hu : effMax cfg lw = 0) (h : wrapFull cfg line lw fill hint = .ok o) :
+    (hz : NlZero line) (hu : effMax cfg lw = 0)
+    (hfit : currentFixes.stuckStop = false ∨ Fits cfg lw line)
+    (h : wrapFull cfg line lw fill hint = .ok o) :
     o.stop = .stackEmpty := by
-  obtain ⟨st, stop, hl, hr, hw, hd, hshape⟩ := wrapFull_spec (fx := currentFixes) hz h
+  obtain ⟨st, stop, hl, hr, hw, hfs, hd, hshape⟩ := wrapFull_spec (fx := currentFixes) hz h
   cases hshape with
   | plain h0 hs => rfl
   | dropped h0 hs => rfl
   | right r0 hres hne h0 hs hlw hpm hpad => rfl
   | limit hs =>
-    have hlim := (step_done_lineLimit hd).2
-    rw [hu] at hlim
-    simp [limitReached] at hlim
+    exfalso
+    rcases (step_done_lineLimit hd).2 with hlim | ⟨hnl, style, gs, rest, hstack, hst⟩
+    · rw [hu] at hlim
+      simp [limitReached] at hlim
+    · rcases hfit with hx | hf
+      · have := hst.1; rw [hx] at this; cases this
+      · obtain ⟨_, _, hc, hno⟩ := hst
+        have h2 := lw_ge_two_of_not_limit hnl
+        have hl0 : st.len = 0 := by rw [← hl.len, hc]; rfl
+        -- the section on top of the stack has to be split, and its first cluster fits
+        have hstep := hd
+        unfold step at hstep
+        rw [hstack] at hstep
+        simp only [hnl, hl0, Nat.zero_add, Bool.false_eq_true, if_false] at hstep
+        have hge : lw ≤ gsWidth gs := by
+          by_cases hlt : gsWidth gs < lw
+          · simp [hlt] at hstep
+          · omega
+        cases gs with
+        | nil => simp [gsWidth] at hge; omega
+        | cons g gs =>
+          have hfs' : ∀ g' ∈ g :: gs, g'.w + cfg.leftSym.w ≤ lw :=
+            hfs hf (style, g :: gs) (by rw [hstack]; simp)
+          have := first_fits_of_fits hfs' hge h2
+          rw [hl0] at hno
+          simp only [firstW] at hno
+          omega
 
 /-- **wrap_row_count.** A line limit bounds the number of rows. -/
 theorem wrap_row_count (cfg : Cfg) (line : List Sec) (lw fill : Nat) (hint : Option Nat) (o : Out)
     (hz : NlZero line) (hpos : 0 < effMax cfg lw) (h : wrapFull cfg line lw fill hint = .ok o) :
     o.rows.length ≤ effMax cfg lw := by
-  obtain ⟨st, stop, hl, hr, hw, hd, hshape⟩ := wrapFull_spec (fx := currentFixes) hz h
+  obtain ⟨st, stop, hl, hr, hw, hfs, hd, hshape⟩ := wrapFull_spec (fx := currentFixes) hz h
   have hcnt := hl.count hpos
   cases hshape with
   | plain h0 hs => simp; omega
@@ -179,26 +208,30 @@ theorem wrap_row_count (cfg : Cfg) (line : List Sec) (lw fill : Nat) (hint : Opt
 
 /-! ## Progress and termination -/
 
-/-- **wrap_progress.** The exact condition for progress on the unrepaired code. At the start
-of a row (`len = 0`), when the next section has to be split (wrap symbol narrower than the
-row), the iteration consumes at least one cluster **iff** the first cluster leaves room for
-the wrap symbol: `g.w + symbol width ≤ line_width`. -/
-theorem wrap_progress (fx : Fixes) (hfx : fx.forceProgress = false)
+/-- **wrap_progress.** The exact condition for progress. At the start of a row (`len = 0`),
+when the next section has to be split (wrap symbol narrower than the row) and the loop goes
+on (always on the unrepaired code; on the repaired code unless it stops because it is stuck
+with no line limit), the iteration consumes at least one cluster **iff** the first cluster
+leaves room for the wrap symbol: `g.w + symbol width ≤ line_width`. -/
+theorem wrap_progress (fx : Fixes)
     (cfg : Cfg) (sym lw : Nat) (st : St) (style : Nat) (g : G) (gs : List G)
     (rest : List Sec) (hs : st.stack = (style, g :: gs) :: rest) (h0 : st.len = 0)
     (hl : limitReached (effMax cfg lw) st.result.length = false)
     (hsym : cfg.leftSym.w < lw)
     (hge : lw ≤ gsWidth (g :: gs))
-    (hnf : ¬ (gsWidth (g :: gs) = lw ∧ PerfectRest fx rest)) :
+    (hnf : ¬ (gsWidth (g :: gs) = lw ∧ PerfectRest fx rest))
+    (hns : ¬ StuckStop fx cfg lw st (g :: gs)) :
     ∃ st', step fx cfg sym lw st = .next st' ∧
       (clusterCount st'.stack < clusterCount st.stack ↔ g.w + cfg.leftSym.w ≤ lw) := by
   have hwl : widthLeft cfg lw 0 (g :: gs) = lw - cfg.leftSym.w := by
     unfold widthLeft; omega
-  have htf : ∀ wl, takeFitF fx 0 wl (g :: gs) = takeFit wl (g :: gs) :=
-    fun wl => takeFitF_eq fx 0 wl _ (Or.inl hfx)
   match hstep : step fx cfg sym lw st with
   | .done .stackEmpty => rw [step_done_stackEmpty hstep] at hs; cases hs
-  | .done .lineLimit => have := (step_done_lineLimit hstep).2; rw [hl] at this; cases this
+  | .done .lineLimit =>
+    rcases (step_done_lineLimit hstep).2 with hlim | ⟨_, _, _, _, hs', hst⟩
+    · rw [hl] at hlim; cases hlim
+    · rw [hs] at hs'; cases hs'
+      exact absurd hst hns
   | .next st' =>
     refine ⟨st', rfl, ?_⟩
     have hrel := step_next hstep
@@ -214,13 +247,14 @@ theorem wrap_progress (fx : Fixes) (hfx : fx.forceProgress = false)
       rw [hs] at hs'; cases hs'
       rw [h0] at heq
       exact absurd ⟨by omega, Or.inr (Or.inl hnl)⟩ hnf
-    | split0 style' gs' rest' hs' hl' hge' hnf' hw hns hnfo =>
+    | split0 style' gs' rest' hs' hl' hge' hnf' hns' hw =>
       rw [hs] at hs'; cases hs'
-      rw [h0, hwl] at hw
+      have := hw.1
+      rw [h0, hwl] at this
       omega
-    | splitk style' gs' rest' hs' hl' hge' hnf' hw =>
+    | splitk style' gs' rest' hs' hl' hge' hnf' hns' hw =>
       rw [hs] at hs'; cases hs'
-      simp only [hs, clusterCount, h0, hwl, htf]
+      simp only [hs, clusterCount, h0, hwl]
       by_cases hfit : g.w + cfg.leftSym.w ≤ lw
       · have := takeFit_progress (lw - cfg.leftSym.w) g gs (by omega)
         simp only [List.length_cons] at this ⊢
@@ -233,31 +267,35 @@ theorem wrap_progress (fx : Fixes) (hfx : fx.forceProgress = false)
         · intro h; omega
         · intro h; exact absurd h hfit
 
-example : noFixes.forceProgress = false ∧ ¬ (gsWidth [⟨"日", 2⟩, ⟨"本", 2⟩] = 2 ∧ PerfectRest noFixes []) := by
-  refine ⟨rfl, ?_⟩
-  intro ⟨h, _⟩
-  simp [gsWidth] at h
+example : ¬ (gsWidth [⟨"日", 2⟩, ⟨"本", 2⟩] = 2 ∧ PerfectRest noFixes []) ∧
+    ¬ StuckStop noFixes defaultCfg 2 (initSt [(0, [⟨"日", 2⟩, ⟨"本", 2⟩])]) [⟨"日", 2⟩, ⟨"本", 2⟩] := by
+  refine ⟨?_, ?_⟩
+  · intro ⟨h, _⟩
+    simp [gsWidth] at h
+  · intro ⟨h, _⟩
+    cases h
 
-/-- **wrap_progress_forced.** With the progress repair (notes/fix-wrap-progress.diff) every
-iteration decreases the termination measure, whatever the widths. -/
-theorem wrap_progress_forced (fx : Fixes) (hfx : fx.forceProgress = true) (cfg : Cfg) (sym lw : Nat)
+/-- **wrap_progress_repaired.** With the progress repair (notes/fix-wrap-progress.diff) and no
+line limit every iteration decreases the termination measure, whatever the widths. -/
+theorem wrap_progress_repaired (fx : Fixes) (hfx : fx.stuckStop = true) (cfg : Cfg) (sym lw : Nat)
+    (hu : effMax cfg lw = 0)
     (st st' : St) (h : step fx cfg sym lw st = .next st') : mu st' < mu st :=
-  mu_step_fits (Or.inl hfx) (step_next h)
+  mu_step_fits (Or.inl ⟨hfx, hu⟩) (step_next h)
 
-example : allFixes.forceProgress = true := rfl
+example : allFixes.stuckStop = true ∧ effMax { defaultCfg with maxLines := 0 } 5 = 0 := by decide
 
 /-- **wrap_terminates.** The loop finishes within the fuel the executable model uses (so the
 model — and the code it mirrors — terminates) whenever a line limit is in force, or every
 cluster of the line leaves room for the wrap symbol on a row, or the progress repair is in
 the source (then: always). -/
 theorem wrap_terminates (cfg : Cfg) (line : List Sec) (lw fill : Nat) (hint : Option Nat)
-    (h : 0 < effMax cfg lw ∨ Fits cfg lw line ∨ currentFixes.forceProgress = true) :
+    (h : 0 < effMax cfg lw ∨ Fits cfg lw line ∨ currentFixes.stuckStop = true) :
     ∃ o, wrapFull cfg line lw fill hint = .ok o := by
   apply wrapFull_ok_of_loop (fx := currentFixes)
   rcases h with hp | hf | hx
   · exact loop_terminates_limited _ cfg _ lw line hp
   · exact loop_terminates_fits _ cfg _ lw line hf
-  · exact loop_terminates_forced _ cfg _ lw line hx
+  · exact loop_terminates_repaired _ cfg _ lw line hx
 
 example : Fits defaultCfg 3 [(0, [⟨"a", 1⟩, ⟨"日", 2⟩, ⟨"b", 1⟩])] := by
   intro sec hsec g hg
@@ -286,7 +324,7 @@ theorem wrap_no_progress (fx : Fixes) (cfg : Cfg) (sym lw : Nat) (st : St) (h : 
 def hangCfg : Cfg := { defaultCfg with maxLines := 0 }
 def hangLine : List Sec := [(0, [⟨"日", 2⟩, ⟨"本", 2⟩, ⟨"\n", 0⟩])]
 
-theorem hang_stuck (fx : Fixes) (hfx : fx.forceProgress = false) : Stuck fx hangCfg 2 (initSt hangLine) := by
+theorem hang_stuck (fx : Fixes) (hfx : fx.stuckStop = false) : Stuck fx hangCfg 2 (initSt hangLine) := by
   refine ⟨hfx, by decide, rfl, rfl, 0, ⟨"日", 2⟩, [⟨"本", 2⟩, ⟨"\n", 0⟩], [], rfl, by decide, by decide, by decide, ?_⟩
   intro ⟨h, _⟩
   simp [gsWidth] at h
@@ -294,7 +332,7 @@ theorem hang_stuck (fx : Fixes) (hfx : fx.forceProgress = false) : Stuck fx hang
 /-- **wrap_hang_witness.** As long as the progress repair is not in the source, `wrap_line`
 does not terminate on the witness (the executable model answers `HANG`; confirmed on the real
 binary by the check). -/
-theorem wrap_hang_witness (hfx : currentFixes.forceProgress = false) :
+theorem wrap_hang_witness (hfx : currentFixes.stuckStop = false) :
     (∀ fuel, loop currentFixes hangCfg 0 2 fuel (initSt hangLine) = none) ∧
     wrapFull hangCfg hangLine 2 0 none = .error .hang := by
   have hstuck := hang_stuck currentFixes hfx
@@ -302,7 +340,7 @@ theorem wrap_hang_witness (hfx : currentFixes.forceProgress = false) :
   unfold wrapFull wrapFullF
   rw [stuck_never_terminates (fx := currentFixes) (cfg := hangCfg) (sym := symStyleOf 0 none) (lw := 2) _ _ hstuck]
 
-example : noFixes.forceProgress = false := rfl
+example : noFixes.stuckStop = false := rfl
 
 /-- With a line limit the same input terminates, but every row before the last holds nothing
 but the wrap symbol (the rows the user sees in place of the text). -/
@@ -313,12 +351,15 @@ theorem wrap_junk_rows_witness :
            [(0, [⟨"日", 2⟩, ⟨"本", 2⟩, ⟨"\n", 0⟩])]] := by
   rfl
 
-/-- After the repair the witness is wrapped, one character per row. -/
+/-- After the repair the witness terminates: wrapping stops at once, the line is shown as one
+(over-long, later truncated) row. With a line limit nothing changes (delta's own test
+`test_two_minus_lines_unicode_truncated` pins the rows that hold only the wrap symbol). -/
 theorem wrap_hang_witness_repaired :
     (wrapFullF allFixes hangCfg hangLine 2 0 none).map (·.rows) =
-      .ok [[(0, [⟨"日", 2⟩]), (0, [⟨Generated.defaultWrapLeftSymbol, 1⟩])],
-           [(0, [⟨"本", 2⟩, ⟨"\n", 0⟩])]] := by
-  rfl
+      .ok [[(0, [⟨"日", 2⟩, ⟨"本", 2⟩, ⟨"\n", 0⟩])]] ∧
+    (wrapFullF allFixes { defaultCfg with maxLines := 3 } hangLine 2 0 none).map (·.rows) =
+      (wrapFullF noFixes { defaultCfg with maxLines := 3 } hangLine 2 0 none).map (·.rows) := by
+  constructor <;> rfl
 
 /-! ## Block level: which rows are lines, which are continuation rows -/
 
@@ -450,11 +491,75 @@ open SideBySide in
 example : panelWidths 17 true = (8, 9) ∧ panelWidths 17 false = (8, 8) ∧ panelWidths 16 true = (8, 8) := by
   decide
 
-/-! ## Sectioning independence: the defect witnesses
+/-! ## Sectioning independence
 
 `wrap_line` is run twice on every long line — once with the syntax-highlighting sections,
 once with the diff sections — and the two results are superimposed; this is only sound when
 the row breaks do not depend on where section boundaries fall. -/
+
+/-- **wrap_sectioning_independent.** Two sectionings of the same text (`flatG line1 = flatG
+line2`; styles and section boundaries arbitrary, no empty sections) are wrapped into rows with
+the same text, row by row — hence the same number of rows, the same stop reason: the
+`assert_eq!` of `wrap_syntax_and_diff` cannot fire and `superimpose_style_sections` never meets
+a mismatch. Proved
+* for the repaired code (`zwShortcut` and `zwPerfectFit`, notes/fix-wrap-zero-width.diff) for
+  all cluster widths, and
+* for the code as pinned under the hypothesis that zero-width clusters occur only as the
+  line's final newline (`ZeroOnlyFinalNl`);
+in both cases for wrap symbols of width 1 and lines whose clusters leave room for the wrap
+symbol (`FitsG`; otherwise the loop stops early or never, see `wrap_progress`). -/
+theorem wrap_sectioning_independent (fx : Fixes) (cfg : Cfg) (line1 line2 : List Sec) (lw fill : Nat)
+    (hint : Option Nat) (o1 o2 : Out)
+    (hflat : flatG line1 = flatG line2)
+    (hsym : cfg.leftSym.w = 1)
+    (hreg : (fx.zwShortcut = true ∧ fx.zwPerfectFit = true) ∨ ZeroOnlyFinalNl (flatG line1))
+    (hnl : NlZeroG (flatG line1)) (hfit : FitsG cfg lw (flatG line1))
+    (hne1 : NoEmptySec line1) (hne2 : NoEmptySec line2)
+    (h1 : wrapFullF fx cfg line1 lw fill hint = .ok o1)
+    (h2 : wrapFullF fx cfg line2 lw fill hint = .ok o2) :
+    rowContents o1 = rowContents o2 ∧ o1.nSym = o2.nSym ∧ o1.stop = o2.stop := by
+  have H1 : SimHyp fx cfg lw (flatG line1) := simHyp_of hsym hreg hnl hfit
+  have H2 : SimHyp fx cfg lw (flatG line2) := by rw [← hflat]; exact H1
+  -- the finest sectioning terminates, since every cluster fits
+  have hfine : ∃ o3, wrapFullF fx cfg (fine (flatG line1)) lw fill hint = .ok o3 := by
+    apply wrapFull_ok_of_loop
+    apply loop_terminates_fits
+    apply fits_of_flat
+    rw [flatG_fine]
+    exact hfit
+  obtain ⟨o3, h3⟩ := hfine
+  obtain ⟨a1, b1, c1⟩ := wrap_vs_fine H1 (nlZero_of_flat hnl) hne1 h1 h3
+  have h3' : wrapFullF fx cfg (fine (flatG line2)) lw fill hint = .ok o3 := by rw [← hflat]; exact h3
+  obtain ⟨a2, b2, c2⟩ := wrap_vs_fine H2 (nlZero_of_flat (by rw [← hflat]; exact hnl)) hne2 h2 h3'
+  exact ⟨by rw [a1, a2], by rw [b1, b2], by rw [c1, c2]⟩
+
+/-- The same for the code as the source is now (`wrapFull`). -/
+theorem wrap_sectioning_independent_current (cfg : Cfg) (line1 line2 : List Sec) (lw fill : Nat)
+    (hint : Option Nat) (o1 o2 : Out)
+    (hflat : flatG line1 = flatG line2)
+    (hsym : cfg.leftSym.w = 1)
+    (hreg : (currentFixes.zwShortcut = true ∧ currentFixes.zwPerfectFit = true) ∨
+            ZeroOnlyFinalNl (flatG line1))
+    (hnl : NlZeroG (flatG line1)) (hfit : FitsG cfg lw (flatG line1))
+    (hne1 : NoEmptySec line1) (hne2 : NoEmptySec line2)
+    (h1 : wrapFull cfg line1 lw fill hint = .ok o1)
+    (h2 : wrapFull cfg line2 lw fill hint = .ok o2) :
+    rowContents o1 = rowContents o2 ∧ o1.nSym = o2.nSym ∧ o1.stop = o2.stop :=
+  wrap_sectioning_independent currentFixes cfg line1 line2 lw fill hint o1 o2 hflat hsym hreg hnl hfit
+    hne1 hne2 h1 h2
+
+example : ZeroOnlyFinalNl [⟨"a", 1⟩, ⟨"日", 2⟩, ⟨"\n", 0⟩] := by
+  intro g r' hsuf hg0
+  obtain ⟨pre, hpre⟩ := hsuf
+  match pre, hpre with
+  | [], h => simp at h; obtain ⟨rfl, _⟩ := h; simp at hg0
+  | [_], h => simp at h; obtain ⟨_, rfl, _⟩ := h; simp at hg0
+  | [_, _], h => simp at h; obtain ⟨_, _, rfl, rfl⟩ := h; exact ⟨rfl, rfl⟩
+  | _ :: _ :: _ :: _, h =>
+    have := congrArg List.length h
+    simp at this
+
+/-! ### The defect witnesses -/
 
 def zw : G := ⟨"\u200b", 0⟩
 def c (s : String) : G := ⟨s, 1⟩
